@@ -45,21 +45,23 @@ func mergedEnumerate(ctx context.Context, dest chan<- blob.SizedRef, nsrc int, g
 	subctx, cancel := context.WithCancel(ctx)
 	defer cancel()
 
-	errch := make(chan error, nsrc+1) // +1 for nil
-	startEnum := func(source BlobEnumerator) *blob.ChanPeeker {
+	// Every source sends exactly one result (nil included) on its own
+	// channel when it is done.
+	errcs := make([]chan error, nsrc)
+	finished := make([]bool, nsrc) // whether errcs[i] has been received
+	startEnum := func(i int, source BlobEnumerator) *blob.ChanPeeker {
 		ch := make(chan blob.SizedRef, buffered)
+		errc := make(chan error, 1)
+		errcs[i] = errc
 		go func() {
-			err := source.EnumerateBlobs(subctx, ch, after, limit)
-			if err != nil {
-				errch <- err
-			}
+			errc <- source.EnumerateBlobs(subctx, ch, after, limit)
 		}()
 		return &blob.ChanPeeker{Ch: ch}
 	}
 
 	peekers := make([]*blob.ChanPeeker, 0, nsrc)
 	for i := range nsrc {
-		peekers = append(peekers, startEnum(getSource(i)))
+		peekers = append(peekers, startEnum(i, getSource(i)))
 	}
 
 	nSent := 0
@@ -73,6 +75,23 @@ func mergedEnumerate(ctx context.Context, dest chan<- blob.SizedRef, nsrc int, g
 				peeker.Take()
 			}
 			if peeker.Closed() {
+				// The source has closed its channel, so it is about to
+				// return, if it hasn't yet. Only consider it exhausted
+				// once we know that it didn't fail: a source may close
+				// its channel before it returns its error, and then the
+				// blobs it didn't get to send must not be skipped
+				// silently.
+				if !finished[idx] {
+					select {
+					case err := <-errcs[idx]:
+						finished[idx] = true
+						if err != nil {
+							return err
+						}
+					case <-ctx.Done():
+						return ctx.Err()
+					}
+				}
 				continue
 			}
 			sb := peeker.MustPeek() // can't be nil if not Closed
@@ -92,12 +111,7 @@ func mergedEnumerate(ctx context.Context, dest chan<- blob.SizedRef, nsrc int, g
 			lastSent = lowest.Ref
 		case <-ctx.Done():
 			return ctx.Err()
-		case err := <-errch:
-			return err
 		}
 	}
-
-	// If any part returns an error, we return an error.
-	errch <- nil
-	return <-errch
+	return nil
 }
